@@ -38,6 +38,7 @@ type Case struct {
 	Val  reflect.Value // value to send
 }
 
+//go:norace
 func (c *Case) id() uintptr {
 	if !c.Ch.IsValid() || c.Ch.IsNil() {
 		return 0
@@ -70,11 +71,13 @@ type Op struct {
 	Cases      []Case
 	HasDefault bool
 	Cond       func() bool
-	Obj        uintptr // identity of the object touched (for happens-before hashing)
-	Obj2       uintptr // second object touched, if any
+	Obj        uintptr       // identity of the object touched (for happens-before hashing)
+	Obj2       uintptr       // second object touched, if any
+	CloseCh    reflect.Value // channel this operation is about to close
 	siteHash   uint64
 }
 
+//go:norace
 func (o *Op) SiteString() string {
 	if o == nil {
 		return ""
@@ -93,6 +96,7 @@ func (o *Op) SiteString() string {
 	return "?"
 }
 
+//go:norace
 func (o *Op) String() string {
 	if o == nil {
 		return "<none>"
@@ -117,7 +121,7 @@ type Task struct {
 	ID    int
 	Name  string
 	op    *Op
-	wake  chan grant
+	ho    handoffTask
 	state int
 	hb    uint64 // happens-before history hash of this task
 }
@@ -141,6 +145,7 @@ type Move struct {
 	t, p  *Task
 }
 
+//go:norace
 func (m *Move) String() string {
 	if m.p != nil {
 		return fmt.Sprintf("%s#%d<->%s#%d %s", m.t.Name, m.Alt, m.p.Name, m.PAlt, m.t.op.String())
@@ -183,7 +188,7 @@ type Sched struct {
 	tasks    []*Task
 	cur      *Task
 	last     *Task
-	events   chan *Task
+	ho       handoffSched
 	choose   Chooser
 	maxSteps int
 	killing  bool
@@ -202,8 +207,11 @@ var progress atomic.Int64
 var watchdogOn atomic.Bool
 
 // Active reports whether operations must go through the scheduler.
+//
+//go:norace
 func Active() bool { return S != nil && !S.killing }
 
+//go:norace
 func startWatchdog() {
 	if watchdogOn.Swap(true) {
 		return
@@ -241,6 +249,8 @@ type Config struct {
 
 // Run executes root as task 0 under the scheduler until every task has
 // finished or nothing is enabled.
+//
+//go:norace
 func Run(cfg Config, root func()) *Exec {
 	if S != nil {
 		panic("vsched: nested Run")
@@ -250,15 +260,16 @@ func Run(cfg Config, root func()) *Exec {
 		cfg.MaxSteps = 20000
 	}
 	s := &Sched{
-		events:   make(chan *Task),
 		choose:   cfg.Choose,
 		maxSteps: cfg.MaxSteps,
-		exec:     &Exec{},
+		exec:     &Exec{Log: make([]string, 0, 256)},
+		tasks:    make([]*Task, 0, 64),
 		closedCh: map[uintptr]reflect.Value{},
 		trace:    cfg.Trace,
 		delay:    cfg.DelayCost,
 		objHB:    map[uintptr]uint64{},
 	}
+	s.initHandoff()
 	S = s
 	s.spawn("root", root)
 	for {
@@ -309,19 +320,22 @@ func Run(cfg Config, root func()) *Exec {
 		if t.state == stDone {
 			continue
 		}
-		t.wake <- grant{kill: true}
-		select {
-		case <-s.events:
-		case <-time.After(2 * time.Second):
+		t.sendGrant(grant{kill: true})
+		if !s.waitEventTimeout(2 * time.Second) {
 			s.exec.Leaked++
 		}
+	}
+	for _, t := range s.tasks {
+		t.acquireDone()
 	}
 	S = nil
 	return s.exec
 }
 
+//go:norace
 func (s *Sched) spawn(name string, fn func()) *Task {
-	t := &Task{ID: len(s.tasks), wake: make(chan grant), state: stParked}
+	t := &Task{ID: len(s.tasks), state: stParked}
+	t.initHandoff()
 	t.Name = fmt.Sprintf("t%d", t.ID)
 	if name != "" {
 		t.Name += ":" + name
@@ -335,10 +349,11 @@ func (s *Sched) spawn(name string, fn func()) *Task {
 	t.op = &Op{Kind: OpYield, Site: "start"}
 	s.tasks = append(s.tasks, t)
 	go func() {
-		g := <-t.wake
+		g := t.waitGrant()
 		if g.kill {
 			t.state = stDone
-			s.events <- t
+			t.publishDone()
+			s.postEvent(t)
 			return
 		}
 		defer func() {
@@ -347,13 +362,15 @@ func (s *Sched) spawn(name string, fn func()) *Task {
 			}
 			t.state = stDone
 			t.op = nil
-			s.events <- t
+			t.publishDone()
+			s.postEvent(t)
 		}()
 		fn()
 	}()
 	return t
 }
 
+//go:norace
 func trimStack(st string) string {
 	lines := strings.Split(st, "\n")
 	var out []string
@@ -372,12 +389,14 @@ func trimStack(st string) string {
 
 // park posts op and blocks until the scheduler grants one of its
 // alternatives.
+//
+//go:norace
 func (s *Sched) park(op *Op) (grant, *Task) {
 	t := s.cur
 	t.op = op
 	t.state = stParked
-	s.events <- t
-	g := <-t.wake
+	s.postEvent(t)
+	g := t.waitGrant()
 	if g.kill {
 		runtime.Goexit()
 	}
@@ -388,23 +407,27 @@ var contOp = &Op{Kind: opCont, Site: "cont"}
 
 // parkCont is called by both tasks of a rendezvous after their real
 // channel operation, so that they continue one at a time.
+//
+//go:norace
 func (s *Sched) parkCont(t *Task) {
 	t.op = contOp
 	t.state = stParked
-	s.events <- t
-	g := <-t.wake
+	s.postEvent(t)
+	g := t.waitGrant()
 	if g.kill {
 		runtime.Goexit()
 	}
 }
 
+//go:norace
 func (s *Sched) resume(t *Task, g grant) {
 	s.cur = t
 	t.state = stRunning
-	t.wake <- g
-	<-s.events
+	t.sendGrant(g)
+	s.waitEvent()
 }
 
+//go:norace
 func mix(h, v uint64) uint64 {
 	h ^= v + 0x9E3779B97F4A7C15 + (h << 6) + (h >> 2)
 	h *= 0xff51afd7ed558ccd
@@ -412,6 +435,7 @@ func mix(h, v uint64) uint64 {
 	return h
 }
 
+//go:norace
 func strhash(s string) uint64 {
 	h := uint64(14695981039346656037)
 	for i := 0; i < len(s); i++ {
@@ -423,6 +447,8 @@ func strhash(s string) uint64 {
 
 // fingerprint identifies the Mazurkiewicz trace of the execution so far:
 // the multiset of per-task and per-object happens-before histories.
+//
+//go:norace
 func (s *Sched) fingerprint() uint64 {
 	l := uint64(0)
 	if s.last != nil {
@@ -432,6 +458,8 @@ func (s *Sched) fingerprint() uint64 {
 }
 
 // objID returns the identity of the object an operation alternative touches.
+//
+//go:norace
 func (o *Op) objID(alt int) uintptr {
 	switch o.Kind {
 	case OpLock:
@@ -456,6 +484,8 @@ type hbDelta struct {
 
 // hbCompute derives the happens-before histories after move m without
 // changing anything.
+//
+//go:norace
 func (s *Sched) hbCompute(m *Move) hbDelta {
 	t := m.t
 	op := t.op
@@ -512,9 +542,12 @@ func (s *Sched) hbCompute(m *Move) hbDelta {
 	return d
 }
 
+//go:norace
 func (d *hbDelta) fingerprint() uint64 { return mix(d.sum, uint64(d.last.ID)+1) }
 
 // hbStep folds a move into the happens-before histories.
+//
+//go:norace
 func (s *Sched) hbStep(m *Move) {
 	d := s.hbCompute(m)
 	if d.obj != 0 {
@@ -530,10 +563,14 @@ func (s *Sched) hbStep(m *Move) {
 	s.hbsum = d.sum
 }
 
+//go:norace
 func (s *Sched) execute(m *Move) {
 	s.hbStep(m)
 	if m.p == nil {
 		t := m.t
+		if t.op.CloseCh.IsValid() && !t.op.CloseCh.IsNil() {
+			s.closedCh[t.op.CloseCh.Pointer()] = t.op.CloseCh
+		}
 		switch t.op.Kind {
 		case OpLock:
 			if t.op.RLock {
@@ -557,10 +594,10 @@ func (s *Sched) execute(m *Move) {
 		snd, rcv = b, a
 	}
 	a.state, b.state = stRunning, stRunning
-	a.wake <- grant{alt: m.Alt, pair: true}
-	b.wake <- grant{alt: m.PAlt, pair: true}
-	<-s.events
-	<-s.events
+	a.sendGrant(grant{alt: m.Alt, pair: true})
+	b.sendGrant(grant{alt: m.PAlt, pair: true})
+	s.waitEvent()
+	s.waitEvent()
 	keep := s.last == snd
 	s.resume(snd, grant{})
 	s.resume(rcv, grant{})
@@ -571,6 +608,7 @@ func (s *Sched) execute(m *Move) {
 	}
 }
 
+//go:norace
 func (s *Sched) isClosed(c *Case) bool {
 	id := c.id()
 	if _, ok := s.closedCh[id]; ok {
@@ -595,6 +633,8 @@ func (s *Sched) isClosed(c *Case) bool {
 
 // enabled lists the enabled moves in canonical order: those of the task
 // that ran last first, then the other tasks by ascending id.
+//
+//go:norace
 func (s *Sched) enabled() []Move {
 	var moves []Move
 	n := len(s.tasks)
